@@ -641,6 +641,29 @@ func c02DataAttr(c *Ctx, lowerRule ...string) {
 					}
 				}
 			}
+			// strings.ContainsAny / ContainsRune / Contains on a modelled part of the key
+			if at.Kind == "val" {
+				if cl, ok := at.Resolve(at.X).(*ssa.Call); ok && cl.Common().StaticCallee() != nil && len(cl.Common().Args) == 2 {
+					var L *relang.DFA
+					switch pa.CalleeName(cl.Common().StaticCallee()) {
+					case "strings.ContainsAny":
+						if set, ok := constString(cl.Common().Args[1]); ok && set != "" {
+							L = relang.Concat(all, relang.Runes(a, []rune(set)...), all)
+						}
+					case "strings.ContainsRune":
+						if k, ok := cl.Common().Args[1].(*ssa.Const); ok && k.Value != nil {
+							L = relang.Concat(all, relang.Runes(a, rune(k.Int64())), all)
+						}
+					case "strings.Contains":
+						if sub, ok := constString(cl.Common().Args[1]); ok {
+							L = relang.Concat(all, relang.Literal(a, sub), all)
+						}
+					}
+					if L != nil {
+						return pre(cl.Common().Args[0], L)
+					}
+				}
+			}
 			// found result of strings.Cut(val, sep)
 			if at.Kind == "val" {
 				if ex, ok := at.Resolve(at.X).(*ssa.Extract); ok && ex.Index == 2 {
